@@ -390,6 +390,30 @@ impl Prop for C19 {
             }
         }
 
+        // --- twin: ControlFlag::XOut asks for output only - the integration itself (accepted steps,
+        // states, status) is the one obtained when the callback returns Continue instead
+        if sc.actions.iter().any(|(_, a)| matches!(a, Action::XOut(_))) {
+            let mut t = sc.clone();
+            t.actions.retain(|(_, a)| !matches!(a, Action::XOut(_)));
+            let u = run_low(&t, false);
+            cov.note_low(&u);
+            cov.bump("twin.xout");
+            if u.verdict == Verdict::Returned {
+                let ur = u.res.as_ref().unwrap();
+                let same = u.n_cb == o.n_cb
+                    && ur.status == res.status
+                    && u.cbs.iter().zip(o.cbs.iter()).all(|(a, b)| a.x.to_bits() == b.x.to_bits() && bits_eq(&a.y_in, &b.y_in));
+                if !same {
+                    let i = u.cbs.iter().zip(o.cbs.iter()).position(|(a, b)| !(a.x.to_bits() == b.x.to_bits() && bits_eq(&a.y_in, &b.y_in)));
+                    v.push(viol(
+                        P,
+                        "xout_perturbs",
+                        format!("returning XOut instead of Continue altered the integration: callbacks {} vs {}, status {} vs {}, first differing callback {:?}", o.n_cb, u.n_cb, status_name(res.status), status_name(ur.status), i),
+                    ));
+                }
+            }
+        }
+
         // --- twin: scaling by powers of two on a linear homogeneous problem with atol = 0
         let all_scale = !sc.actions.is_empty() && sc.actions.iter().all(|(_, a)| matches!(a, Action::ModScale(f) if is_pow2(*f)));
         let dbl_ok = sc.prob.linear_homogeneous() && sc.atol.iter().all(|a| *a == 0.0) && all_scale;
